@@ -804,6 +804,8 @@ class NPFacade(types.ModuleType):
     round = around
 
     def log(self, a, **k):
+        if isinstance(a, (list, tuple)):
+            a = _np.array(list(a), dtype=object) if has_sym(a) or any(isinstance(x, Fraction) for x in a) else _np.asarray(a, dtype=float)
         if isinstance(a, _np.ndarray) and a.dtype != object:
             with _np.errstate(divide='ignore'):
                 return _wrap(_np.log(a.view(_np.ndarray)))
@@ -812,6 +814,8 @@ class NPFacade(types.ModuleType):
         return _log(a)
 
     def exp(self, a, **k):
+        if isinstance(a, (list, tuple)):
+            a = _np.array(list(a), dtype=object)
         if isinstance(a, _np.ndarray) and a.dtype != object:
             return _np.exp(a)
         if isinstance(a, _np.ndarray):
